@@ -48,6 +48,8 @@ class Result:
         self.replay_case = None  # what to store as the replay when it is not the case itself
 
     def fail(self, sig, msg, detail=None):
+        if len(msg) > 1200:
+            msg = msg[:1200] + ' ... [%d more characters, see the replay]' % (len(msg) - 1200)
         self.violations.append(Violation(sig, msg, detail))
 
     def label(self, *labels):
